@@ -353,6 +353,10 @@ def mon_c20(case):
         return None
     prev = (case["cfg"][0], 0, case["cfg"][1], {})
     for step, (op, out, cb, acct, snap) in enumerate(case["lines"], 1):
+        if op and 110 <= op[0] <= 120 and is_panic(out, snap):
+            what = {119: "room_left", 120: "fill_sample"}.get(op[0], f"operation {op[:3]}")
+            return step, (f"{what} panicked (sample size {prev[2]}, {len(prev[3])} tracked pairs): it has a result for every "
+                          f"state and argument" + (" - its input followed by tracked pairs" if op[0] == 120 else ""))
         if not op or op[0] in (98, 99) or is_panic(out, snap):
             continue
         cur = sampled_snap(snap)
@@ -601,6 +605,9 @@ def mon_c08_ctor(case):
     floor(size * recent ratio) and the ghost capacity floor(size * ghost ratio), in double precision"""
     import math
     for step, (op, out, cb, acct, snap) in enumerate(case["lines"], 1):
+        if op and op[0] in (140, 141) and out == [-6]:
+            return step, (f"the cache built by {op[:8]} has an internal list whose capacity is not the configured one (each resident queue "
+                          "of a 2Q cache must be able to hold the whole cache)")
         if not op or not out or out[0] != 0 or len(out) < 4:
             continue
         o = op
@@ -1080,6 +1087,23 @@ def mon_c02(case):
     a released key must never be reported, the five lookups must agree with the resident lists, and
     remove must hand back the retained value and release the key"""
     kind = case["kind"]
+    if kind == 16:
+        return mon_types(case, "val")
+    if kind == 8:
+        # a conversion stores its pairs one after the other: a lookup in the cache it built returns, for every key it
+        # retains, the value of the key's LAST occurrence in the source, and it holds no other key
+        for step, (op, out, cb, acct, snap) in enumerate(case["lines"], 1):
+            if op and op[0] == 142 and len(out) >= 2 and out[0] >= 0:
+                last = {}
+                for k, v in zip(op[2::2], op[3::2]):
+                    last[k] = v
+                for k, v in zip(out[2::2], out[3::2]):
+                    if k not in last:
+                        return step, f"conversion {op[1]}: the cache holds key {k}, which the source {op[2:]} does not contain"
+                    if last[k] != v:
+                        return step, (f"conversion {op[1]} from {op[2:]}: key {k} is held with value {v}, the value stored last "
+                                      f"for it is {last[k]}")
+        return None
     if kind not in LAYOUT:
         return None
     resident_idx = LAYOUT[kind][2]
@@ -1366,6 +1390,10 @@ def mon_c11(case):
             h = op[-1]
             if h in door and out != [1]:
                 return step, f"doorkeeper forgot hash {h} recorded since the last reset (contains = {out})"
+        elif c == 91 and out == [-6]:
+            return step, ("the clone answers estimate / contains differently from the estimator it was cloned from for some key "
+                          "0..23 although its counters and doorkeeper are the same (the keys recorded so far are looked up in "
+                          "other cells: estimates below the exact count, doorkeeper false negatives)")
         elif c == 90 and tiny is not None:
             a, b = op[3], op[4]
             x, y = t_estimate(tiny, a), t_estimate(tiny, b)
@@ -1402,6 +1430,10 @@ def mon_c03(case):
     identity: an update or a hit moves the same node to the front, an insertion into a full list recycles the least
     recently used node, an insertion with room links a node that was not linked before, nothing else moves"""
     kind = case["kind"]
+    if kind == 16:
+        return mon_types(case, "mem")
+    if kind == 17:
+        return mon_liar(case, "mem")
     if kind in HLAYOUT:
         return mon_c03_slru(case)
     if kind == 8:
@@ -1663,11 +1695,114 @@ def mon_c03_slru(case):
         prev = cur
     return None
 
+def mon_liar(case, what):
+    """kind 17: RawLRU under a hasher whose answers change while keys are stored (what a key with interior state read by
+    its Hash does).  The index may lose and duplicate keys, so results, leaks and even termination are unspecified (as for
+    std's HashMap); what has to hold is the weak invariant of layer F after every call and after every panic of the
+    library's own unwraps - the chain is well formed, no node is linked or indexed twice, every index entry points at a
+    linked, allocated node through the key stored in a linked node - and no double drop, no write to freed memory"""
+    for step, (op, out, cb, acct, snap) in enumerate(case["lines"], 1):
+        if not op or op[0] == 98:
+            continue
+        if is_panic(out, snap):
+            if what == "mem" and any(post_panic_audit(snap)):
+                bad = [c for c in post_panic_audit(snap) if c][0]
+                return step, (f"with a hasher that changes its answers: call {op[:4]} panicked inside the library and left "
+                              f"{WEAK_CODES.get(bad, bad)} (weak audit: {post_panic_audit(snap)})")
+            return None
+        if op[0] == 99:
+            if len(out) >= 6:
+                if what == "own" and out[2]:
+                    return step, f"with a hasher that changes its answers: dropping the cache dropped {out[2]} object(s) twice"
+                if what == "mem" and out[5]:
+                    return step, "with a hasher that changes its answers: freed memory was written to (poison damaged)"
+            continue
+        if what == "mem" and snap and snap[0] != 0:
+            return step, (f"with a hasher that changes its answers: after call {op[:4]} the list is damaged: "
+                          f"{WEAK_CODES.get(snap[0], snap[0])} (chain {snap[1] if len(snap) > 1 else '?'} nodes, index {snap[2] if len(snap) > 2 else '?'} entries)")
+        if what == "own" and len(acct) >= 3 and acct[2]:
+            return step, f"with a hasher that changes its answers: call {op[:4]} dropped {acct[2]} key/value object(s) twice"
+    return None
+
+
+
+TY_INST = ["(TKey, u64)", "(u64, TVal)", "(String, u64)", "(u8, String)", "(TKey, Wide: 64-byte aligned Copy)", "(String, TVal)"]
+TY_CACHE = ["RawLRU", "SegmentedCache", "TwoQueueCache", "AdaptiveCache", "WTinyLFUCache"]
+
+
+def mon_types(case, what):
+    """kind 16: the five cache types over other key / value types (harness tys.rs), judged on the implementation alone.
+    `what`: "own" = ledger / blocks / purge, "mem" = poison and panics inside the library, "val" = a lookup returns
+    the value stored last under the key"""
+    inst, cache = case["cfg"][0], case["cfg"][1]
+    who = f"{TY_CACHE[cache] if cache < len(TY_CACHE) else cache}<{TY_INST[inst] if inst < len(TY_INST) else inst}>"
+    last = {}
+    prev_ret = 0
+    for step, (op, out, cb, acct, snap) in enumerate(case["lines"], 1):
+        if not op or op[0] == 98:
+            continue
+        if is_panic(out, snap):
+            if what in ("mem", "total"):
+                return step, f"{who}: operation {op[:4]} panicked inside the library"
+            return None
+        if op[0] == 99:
+            if len(out) >= 6:
+                dk, dv, dd, live, blocks, poison = out[:6]
+                if what == "own":
+                    if dd:
+                        return step, f"{who}: dropping the cache dropped {dd} object(s) twice"
+                    if live:
+                        return step, f"{who}: {live} tracked keys/values are still alive after the cache was dropped (leak)"
+                    if blocks:
+                        return step, f"{who}: {blocks} heap blocks allocated for the cache (nodes, index, owned keys/values) were not freed when it was dropped"
+                if what == "mem" and poison:
+                    return step, f"{who}: freed memory was written to (poison damaged)"
+            continue
+        if len(snap) < 4:
+            return step, "unreadable snapshot"
+        tk, tv, retained, ln = snap[:4]
+        if what == "own" and len(acct) >= 4:
+            dd, live = acct[2], acct[3]
+            if dd:
+                return step, f"{who}: call {op[:4]} dropped {dd} key/value object(s) twice"
+            if live != retained * (tk + tv):
+                return step, (f"{who}: after call {op[:4]} {live} tracked objects are alive but the cache retains {retained} entries "
+                              f"(= {retained * (tk + tv)} tracked objects): "
+                              f"{'leak' if live > retained * (tk + tv) else 'an object reachable through the cache was dropped'}")
+            if op[0] == 7 and (retained or ln):
+                return step, f"{who}: purge left {retained} entries retained"
+        if what == "val":
+            c = op[0]
+            if c == 0:
+                if out and out[0] in (1, 3) and op[1] in last and out[-1] != last[op[1]]:
+                    return step, f"{who}: put({op[1]}) reports the old value {out[-1]}, stored last: {last[op[1]]}"
+                last[op[1]] = op[2]
+            elif c in (1, 2, 3, 4, 6) and out[:1] == [1]:
+                if op[1] in last and out[1] != last[op[1]]:
+                    return step, f"{who}: lookup {op[:2]} returned {out[1]} but the value stored last under the key is {last[op[1]]}"
+                if op[1] not in last:
+                    return step, f"{who}: lookup {op[:2]} returned {out[1]} for a key that was never stored"
+                if c in (2, 4) and len(op) >= 4 and op[2]:
+                    last[op[1]] = op[3]
+                if c == 6:
+                    del last[op[1]]
+            elif c == 7:
+                last = {}
+            elif c == 25 and out == [-7]:
+                return step, f"{who}: the clone reports another len / cap than the original"
+    return None
+
+
+
 def mon_c04(case):
     """ownership ledger of the harness on the implementation alone: nothing dropped twice; after every call the
     tracked keys and values still alive are exactly those of the retained entries; purge retains nothing;
     dropping the cache releases every retained key and value once, every heap block, and damages no freed memory"""
     kind = case["kind"]
+    if kind == 16:
+        return mon_types(case, "own")
+    if kind == 17:
+        return mon_liar(case, "own")
     if kind == 8:
         # constructors, builders and conversions: every cache they build is dropped inside the call; at the end of the
         # history no block allocated by them may be left and no freed memory may have been written
